@@ -49,6 +49,15 @@ def make_scenarios(ctx, count):
         rng = G.rng_for(ctx.seed, "C02", i)
         cfg = G.rand_cfg(rng)
         glob = G.rand_global(rng)
+        if rng.random() < 0.3:
+            # some platform getters fail (the set of failing getters is configuration, the output must still be a
+            # function of frames + configuration); MAC and MTU stay available so that the other clauses keep their meaning
+            for bit in range(2, 12):
+                if rng.random() < 0.3:
+                    cfg["fail"] |= 1 << bit
+            for bit in (12, 13, 14, 15):
+                if rng.random() < 0.2:
+                    glob["fail"] |= 1 << bit
         net = G.Net(rng, cfg["mac"])
         style, frames = history(rng, net, cfg["mtu"], rng.randint(20, 60))
         use_flow = rng.random() < 0.25
